@@ -110,7 +110,39 @@ func runC35(rc *RC) {
 		rc.Knob("FeaturesByIDCacheSize", cache)
 		simrt.SetKnob("FeaturesByIDCacheSize", cache)
 	}
+	// what lies under the overlay kinds: a built world (0); a
+	// BasicMutableWorld that was edited and is now left alone (1); for the
+	// mutable overlay world, its own snapshot layer (2). Edited bases hold
+	// features whose tag lists were appended to in place.
+	baseShape := 0
+	var baseOps []op
+	if (kind == 1 || kind == 5) && !compactBase && rc.Pct(50) {
+		baseShape = 1 + rc.Draw(kind%5+1) // kind 1: 1 or 2; kind 5: 1
+		for n := rc.Range(1, 8); n > 0; n-- {
+			o := g.genTagOp()
+			if o.Kind == "addtag" && rc.Pct(50) {
+				o.Key = []string{"#amenity", "#building", "note"}[rc.Draw(3)]
+			}
+			if g.specs[o.ID] != nil {
+				baseOps = append(baseOps, o)
+				g.commit(o)
+			}
+		}
+	}
+	rc.Knob("base-shape", baseShape)
 	var overlayOps []op
+	if kind == 1 || kind == 5 {
+		// plain keys added to base features: held as tag modifications and
+		// merged into the base feature's tags by every read
+		for n := rc.Range(0, 3); n > 0; n-- {
+			if id, ok := g.anyExistingID(); ok {
+				g.valueCounter++
+				o := op{Kind: "addtag", ID: id, Key: []string{"levels", "note", "name"}[rc.Draw(3)], Val: fmt.Sprintf("v%d", g.valueCounter)}
+				overlayOps = append(overlayOps, o)
+				g.commit(o)
+			}
+		}
+	}
 	switch kind {
 	case 1, 3, 4:
 		for n := rc.Range(1, 8); n > 0; n-- {
@@ -141,6 +173,20 @@ func runC35(rc *RC) {
 	newBase := func() (b6.World, error) {
 		if compactBase {
 			return newCompactWorld(specs, 1)
+		}
+		if baseShape == 1 {
+			m := ingest.NewBasicMutableWorld()
+			for _, f := range buildAll(specs) {
+				if err := m.AddFeature(f); err != nil {
+					return nil, err
+				}
+			}
+			for _, x := range baseOps {
+				if err := x.apply(m); err != nil {
+					return nil, fmt.Errorf("%s: %v", x, err)
+				}
+			}
+			return m, nil
 		}
 		return newBasicWorld(specs)
 	}
@@ -189,6 +235,14 @@ func runC35(rc *RC) {
 			return nil, err
 		}
 		o := ingest.NewMutableOverlayWorld(bw)
+		if baseShape == 2 {
+			for _, x := range baseOps {
+				if err := x.apply(o); err != nil {
+					return nil, fmt.Errorf("%s: %v", x, err)
+				}
+			}
+			o.Snapshot()
+		}
 		for _, x := range overlayOps {
 			if err := x.apply(o); err != nil && x.Kind == "add" {
 				return nil, fmt.Errorf("%s: %v", x, err)
